@@ -15,6 +15,9 @@
               see it (the texts are evaluated by a VM of their own)
      natnames names declared INSIDE the body of a redefined    ctorDeclare  如何新建异常？ with a nested 如何内助？ / 定义内类, then 新建异常
               constructor of a predefined type (the body runs in a frame of the shared native-code module)
+     report   the call frames that the error of an EARLIER     (any polluter that makes calls: failDeep, fileImport, importLib, ctorDeclare)
+              execution refers to: the error value is kept by its caller and rendered later (an HTTP handler renders it
+              after other requests have run) - the report must still describe ITS execution
      source   the program text bound to an interpreter       (LoadScript / LoadFile of another request)
    Design "intended": every execution starts from its own pristine copy of all cells, and the source is
    bound to the REQUEST.  Design "ascoded" (named deviation, the behaviour of the original code): the
@@ -29,7 +32,7 @@ CONSTANTS Design, Mode, MaxN, Conc
 
 Polluters == {"incNum", "redefExc", "redefLib", "mutLib", "failDeep", "declare", "importLib", "mutResp", "fileImport", "varInputInc", "ctorDeclare"}
 Pristine == [num |-> 0, excctor |-> "builtin", libctor |-> "builtin", libdef |-> "clean", frames |-> 0, names |-> {}, libs |-> {},
-             respdef |-> "clean", modpath |-> "fresh", numvar |-> 0, natnames |-> {}]
+             respdef |-> "clean", modpath |-> "fresh", numvar |-> 0, natnames |-> {}, report |-> "own"]
 
 (* ------------------------------------------------------------------ the process-wide variables of the code
    Every package-level variable of DemoHn/Zn (go/types inventory, bound by the driver: a new or re-typed variable is
@@ -85,13 +88,13 @@ Effect(p, c) == CASE p = "incNum" -> [c EXCEPT !.num = @ + 5]
                   [] p = "redefExc" -> [c EXCEPT !.excctor = "user"]
                   [] p = "redefLib" -> [c EXCEPT !.libctor = "user"]
                   [] p = "mutLib" -> [c EXCEPT !.libdef = "dirty"]
-                  [] p = "failDeep" -> [c EXCEPT !.frames = 3]
+                  [] p = "failDeep" -> [c EXCEPT !.frames = 3, !.report = "foreign"]
                   [] p = "declare" -> [c EXCEPT !.names = @ \cup {"X"}]
-                  [] p = "importLib" -> [c EXCEPT !.libs = @ \cup {"json"}]
+                  [] p = "importLib" -> [c EXCEPT !.libs = @ \cup {"json"}, !.report = "foreign"]
                   [] p = "mutResp" -> [c EXCEPT !.respdef = "dirty"]
-                  [] p = "fileImport" -> [c EXCEPT !.modpath = "used"]
+                  [] p = "fileImport" -> [c EXCEPT !.modpath = "used", !.report = "foreign"]
                   [] p = "varInputInc" -> [c EXCEPT !.numvar = @ + 5]
-                  [] p = "ctorDeclare" -> [c EXCEPT !.natnames = @ \cup {"helper", "type"}]
+                  [] p = "ctorDeclare" -> [c EXCEPT !.natnames = @ \cup {"helper", "type"}, !.report = "foreign"]
 Seqs == UNION {[1..n -> Polluters] : n \in 0..MaxN}
 SInit == /\ Mode = "seq" /\ seq \in Seqs /\ done = 0 /\ cells = Pristine /\ obs = [k |-> "none"]
          /\ st = <<>> /\ src = 0 /\ bound = <<>> /\ sched = <<>>
